@@ -47,6 +47,7 @@ type SpecProj struct {
 	Pend   int    `json:"pend"` // unresolved futures of replicated operations submitted to this incarnation
 	Base   int    `json:"base"` // compaction boundary of the log
 	Snap   int    `json:"snap"` // label of the newest published snapshot
+	CfgI   int    `json:"cfgi"` // index of the configuration in force
 }
 
 var roleName = map[int]string{0: "L", 1: "F", 2: "P", 3: "C", 4: "D"}
@@ -67,7 +68,7 @@ func (c *Cluster) project(n *Node) SpecProj {
 	}
 	return SpecProj{Term: int(st.Term), Vote: vote, Role: roleName[int(st.State)], Last: int(n.lw.inner.LastIndex()),
 		LastT: int(n.lw.inner.LastTerm()), Commit: int(st.CommitIndex), Pend: pend,
-		Base: int(n.lw.inner.LastIndex()) - n.lw.inner.Size(), Snap: snap}
+		Base: int(n.lw.inner.LastIndex()) - n.lw.inner.Size(), Snap: snap, CfgI: int(n.r.Configuration().Index)}
 }
 
 // lapse advances virtual time until node id neither holds a valid lease nor has heard
@@ -163,6 +164,10 @@ func (r *Runner) specStep(k int, st SpecStep) {
 		r.Do(Stim{Op: "hb", N: n})
 		ok = r.Do(Stim{Op: "deliver", Kind: "ae", From: n, To: p})
 		r.Do(Stim{Op: "dropresp", Kind: "ae", From: n, To: p})
+	case "AddVoter", "AddNonVoter":
+		ok = r.Do(Stim{Op: "add", N: n, ID: p, V: st.A == "AddVoter", TO: 60000})
+	case "RemoveServer":
+		ok = r.Do(Stim{Op: "remove", N: n, ID: p, TO: 60000})
 	case "ArmSnapshot":
 		ok = r.Do(Stim{Op: "snapnow", N: n})
 	case "ISExchange":
